@@ -31,7 +31,11 @@
     its right-hand side (items must be literals); the var limit is checked by `<var>` only; a test /
     head / data expression that draws random numbers leaves a generator state the unrolling never
     sees; an `id` on a control element registers a reuse template; at the depth limit the loop fails
-    where its unrolling renders (the premise is that the version WITH the element succeeds).
+    where its unrolling renders (the premise is that the version WITH the element succeeds); and, since
+    `<defaults>` is modelled: `apply_defaults` is run on the `<var/>` elements of the unrolling as on
+    any empty-element tag, so a default for `_` or `var` makes them bind extra variables - the premises
+    (`FirstTryLoop`, `LoopRun` via `HdrOk`, `ForRun`) now say that no default in force applies to them
+    (`VarUntouched` / `ForVarUntouched`; counterexample `defaults_reach_the_unrolled_var`).
 
   What is still decided per input by the unrolling oracle: bodies that need retries (forward
   references inside or across copies).
@@ -137,3 +141,4 @@ end Svgdx.Props.C16
 #print axioms Svgdx.Props.C16x.loop_among_siblings
 #print axioms Svgdx.Props.C16x.replacement_among_siblings
 #print axioms Svgdx.Props.C16x.depth_not_observable
+#print axioms Svgdx.Ctl.Unroll2Example.defaults_reach_the_unrolled_var
